@@ -98,8 +98,11 @@ func runCrashPoint(it CrashItem, p int, res *CrashResult, dir string) {
 	for _, d := range it.Devs {
 		devAt[d.Pos] = append(devAt[d.Pos], d)
 	}
-	crashed := false
+	crashed := x.C.Nodes[0].Down
 	for pos, a := range sc.Seed {
+		if crashed {
+			break
+		}
 		replaced := false
 		for _, d := range devAt[pos] {
 			x.Step(d.Alt)
@@ -140,8 +143,8 @@ func runCrashPoint(it CrashItem, p int, res *CrashResult, dir string) {
 	}
 	lastSelf, lastSelfIdx := "", -1
 	for _, hx := range cs.Order {
-		if r := x.C.Events[hx]; r != nil && r.CreatorIdx == 0 && r.Index > lastSelfIdx {
-			lastSelf, lastSelfIdx = hx, r.Index
+		if cs.Creator[hx] == sim.PubHex(0) && cs.Index[hx] > lastSelfIdx {
+			lastSelf, lastSelfIdx = hx, cs.Index[hx]
 		}
 	}
 	// events are recorded by the cluster scan only after a completed step: look them up in the store after restart too
@@ -317,10 +320,10 @@ func init() {
 			x := sched.NewExec(sc, nil)
 			x.NoDigest = true
 			for _, a := range sc.Seed {
-				x.Step(a)
 				if x.C.Nodes[0].Down {
 					break
 				}
+				x.Step(a)
 			}
 			x.C.Nodes[0].KeepDir = true
 			x.Close()
